@@ -1,5 +1,5 @@
 # props.py — per-property registry: streams, monitors, non-triviality rule.
-import os, random, collections, shutil, subprocess
+import os, random, collections, shutil, subprocess, re
 from uvlib import *
 import gen, monitors
 from gen import PFX
@@ -722,6 +722,106 @@ def run_C11(pid, tier, seed, model_ok=True):
         shutil.rmtree(work, ignore_errors=True)
 
 
+
+# ------------------------------------------------------------------ C12 (action traces, stalls)
+def run_C12(pid, tier, seed, model_ok=True):
+    rnd = random.Random(seed)
+    ctx = Ctx(seed=seed)
+    work = os.path.join(CACHE, 'work-%s-%d' % (pid, os.getpid()))
+    try:
+        al = gen.Alphabet(ctx)
+        labels = ['q', 'p', 'c', 's', 'ok', 'fail', 'R', 'u1', 'u2', 'u3', 'rb1', 'rb12', 'rbe', 'ck2', 'crb2', 'udl2', 'uh3',
+                  'uj2', 'ckerr', 'uperr', 'upnone', 'auto', 'i2', 'i2bad', 'u3rb2']
+        depth = 2 if tier == 'quick' else 3
+        hs = []
+        for pk in ('empty', 'good1', 'good1pend2', 'good1boot2', 'good1bad2'):
+            hs += gen.exhaustive_exact(al, labels, depth, prefixes=(PFX[pk],), name='T%d_' % len(hs))
+        # calls before initialisation, bad inits
+        pre = ['op nextnum', 'op nextpath', 'op curnum', 'op start', 'op success', 'op failure', 'op auto',
+               'op check - err', 'op update - err err', op_init(bad=True), op_init(paths=False)]
+        hs.append(('T_uninit', pre + [al.init] + al.seq(['q', 'u1', 'q'])))
+        hs += gen.random_walks(al, labels, [1] * len(labels), 60 if tier == 'quick' else 1500, (8, 30), rnd, name='Tr', conformant=False)
+        header = ['trace on'] + ctx.header()
+        # hung connection: thread 0's check does not return until thread 1 has finished all its calls
+        stall = []
+        t1s = {
+            'queries': ['op nextnum', 'op nextpath', 'op curnum', 'op auto'],
+            'reports': ['op start', 'op success', 'op nextnum'],
+            'failure': ['op start', 'op failure', 'op nextnum'],
+            'check': [op_check(ctx, 2), 'op nextnum'],
+            'update2': [op_update(ctx, 3), 'op nextnum', op_update(ctx, 3)],
+        }
+        for pk in ('empty', 'good1', 'good1pend2', 'boot1'):
+            for k, t1 in t1s.items():
+                for uk in ('u2', 'u3rb2', 'udl2'):
+                    order = ','.join(['0'] * 4 + ['1'] * 12 + ['0'] * 12)
+                    ops = [al.init] + al.seq(PFX[pk]) + ['stall on', 't0 ' + al.ops[uk][0]] + ['t1 ' + x for x in t1] + ['order ' + order, 'stall off', 'op nextnum', 'op curnum']
+                    stall.append(('S_%s_%s_%s' % (pk, k, uk), ops))
+        model, impl, extras = run_both(header, hs + stall, work, impl_only=not model_ok)
+        opsof = dict(hs + stall)
+        divs, fails = [], []
+        if model_ok:
+            for (h, idx, ml, il) in diff_traces(model, impl):
+                divs.append((h, idx, ml, il, opsof[h], header))
+        distinct = set()
+        evals = 0
+        samples = []
+        for name, ops in hs + stall:
+            tr = impl.get(name)
+            if tr is None:
+                continue
+            for l in tr:
+                evals += 1
+                m = re.search(r' act=(\S*)', l)
+                if not m:
+                    continue
+                a = m.group(1)
+                distinct.add(a)
+                if a == '-':
+                    continue
+                depth, upd = 0, False
+                for tok in [x for x in a.split(',') if x]:
+                    bad = None
+                    if tok == 'A':
+                        bad = 'config lock re-entered' if depth else None
+                        depth = 1
+                    elif tok == 'R':
+                        depth = 0
+                    elif tok == 'N' and depth:
+                        bad = 'network callback while holding the config lock'
+                    elif tok in ('T1', 'T0'):
+                        if depth:
+                            bad = 'update lock requested while holding the config lock'
+                        if tok == 'T1':
+                            upd = True
+                    elif tok == 'U':
+                        upd = False
+                    if bad:
+                        fails.append((name, 0, 'C12: %s (trace %s)' % (bad, a), ops, header))
+                if depth or upd:
+                    fails.append((name, 0, 'C12: a lock is still held when the call returns (trace %s)' % a, ops, header))
+            if name.startswith('S_'):
+                line = [l for l in tr if '|' in l.split(' ')[0]]
+                if line:
+                    o1 = line[0].split(' ')[0].split('|')[1].split(',')
+                    if 'update2' in name and o1[0] != '-1':
+                        fails.append((name, 0, 'C12: second update during a stuck update returned %s, not the already-in-progress error' % o1[0], ops, header))
+            if len(samples) < 5 and rnd.random() < 0.01:
+                samples.append({'history': name, 'last': tr[-1][-120:]})
+        for x in extras:
+            if 'DEPTH-VIOLATION' in x or 'did not complete' in x:
+                fails.append(('harness', 0, 'C12: ' + x, ['op nextnum'], header))
+        extras = [x for x in extras if 'DEPTH-VIOLATION' not in x]
+        if not samples:
+            samples.append({'history': hs[0][0], 'ops': hs[0][1][:8]})
+        return dict(evaluations=evals, distinct=len(distinct), samples=samples, divergences=divs, monitor_fail=fails,
+                    rule='per-call lock/network action trace (config mutex acquire/release, update try_lock/release, network callbacks with the thread-local lock depth) compared with the model trace for exhaustive depth-k calls from 5 states, calls before init, random walks; hung-connection scenarios: thread 0 update stalls in the patch check until thread 1 (queries, launch reports, check, second update) finished; non-trivial = distinct action traces',
+                    dist={'lines': evals}, extras=extras, traces=len(impl))
+    finally:
+        ctx.cleanup()
+        shutil.rmtree(work, ignore_errors=True)
+
+
 def mk(build, mons, trig, rule, **kw):
     d = dict(mons=mons, run=lambda pid, tier, seed, model_ok=True: run_lifecycle(pid, tier, seed, build, mons, trig, rule, model_ok=model_ok))
     d.update(kw)
@@ -729,6 +829,7 @@ def mk(build, mons, trig, rule, **kw):
 
 
 PROPS = {
+    'C12': dict(mons=[], run=run_C12, assumptions=['wall-clock promptness is runtime behaviour: the check enforces a 5 s bound on the hung-connection scenarios and the structural trace properties only']),
     'C11': dict(mons=[], run=run_C11, assumptions=['interleavings at the granularity of config-mutex acquisitions (the only shared state is guarded by it); network callbacks run unlocked and touch no shared state']),
     'C16': dict(mons=[], run=run_C16,
                 assumptions=['zstd compress/decompress round trip is an oracle (hypothesis of C16_end_to_end); the suffix-array match search is covered only through wf_matches of what it emits']),
